@@ -84,13 +84,13 @@ class Stubs:
 
     def mapping_contains(self, eng, st, cont, a, neg):
         eng.used_stubs.add('Mapping mix-in semantics of $PolicyValues')
-        m = V.m(z3.Select(st.H('$val'), V.ref(cont)))
+        m = V.m(eng.val(st, cont))
         e = z3.And(V.is_str(a), z3.Select(m, V.s(a)) != ABSENT)
         return ok(st, mk_bool(z3.Not(e) if neg else e))
 
     def mapping_getitem(self, eng, st, o, i):
         eng.used_stubs.add('Mapping mix-in semantics of $PolicyValues')
-        m = V.m(z3.Select(st.H('$val'), V.ref(o)))
+        m = V.m(eng.val(st, o))
         v = z3.Select(m, V.s(i))
         out = []
         a, b = eng.split(st, z3.And(V.is_str(i), v != ABSENT))
@@ -102,14 +102,14 @@ class Stubs:
 
     def mapping_get(self, eng, st, o, k, dflt):
         eng.used_stubs.add('Mapping mix-in semantics of $PolicyValues')
-        m = V.m(z3.Select(st.H('$val'), V.ref(o)))
+        m = V.m(eng.val(st, o))
         v = z3.Select(m, V.s(k))
         return ok(st, z3.If(z3.And(V.is_str(k), v != ABSENT), v, dflt))
 
     def mapping_setitem(self, eng, st, o, k, v):
         eng.used_stubs.add('Mapping mix-in semantics of $PolicyValues')
         st.assume(V.is_str(k))
-        m = V.m(z3.Select(st.H('$val'), V.ref(o)))
+        m = V.m(eng.val(st, o))
         eng.set(st, o, '$val', V.dict(z3.Store(m, V.s(k), v)))
         return ok(st, NONE)
 
